@@ -41,6 +41,16 @@ _INT_TYPES = set(["bigint", "int", "smallint", "tinyint"])
 _log = logging.getLogger("cutplace")
 
 
+def _digits_for_limit(limit):
+    """
+    The number of decimal digits needed to store any integer between
+    ``-(limit + 1)`` and ``limit``, which is the range described by a limit
+    from :py:meth:`cutplace.fields.IntegerFieldFormat.sql_ansi_type()`.
+    """
+    assert limit >= 0
+    return len(str(limit + 1))
+
+
 class AnsiSqlDialect:
     """
     ANSI SQL dialect basically but not really supported by several database vendors.
@@ -762,7 +772,7 @@ class PlSqlDialect(AnsiSqlDialect):
         elif ansi_type == "int":
             length = sql_ansi_type[1]
             if length > MAX_INTEGER:
-                result = ("number", length, 0)
+                result = ("number", _digits_for_limit(length), 0)
 
         return result
 
@@ -980,7 +990,7 @@ class TransactSqlDialect(AnsiSqlDialect):
             elif limit <= MAX_BIGINT:
                 result = ("bigint", limit)
             else:
-                result = ("decimal", limit, 0)
+                result = ("decimal", _digits_for_limit(limit), 0)
         else:
             result = sql_ansi_type
 
@@ -1303,7 +1313,7 @@ class Db2SqlDialect(AnsiSqlDialect):
             elif length <= MAX_BIGINT:
                 result = ("bigint", length)
             else:
-                result = ("decimal", length)
+                result = ("decimal", _digits_for_limit(length))
         return result
 
     def __str__(self):
